@@ -594,6 +594,11 @@ func (fd *Client) BatchWriteItem(input *dynamodb.BatchWriteItemInput) (*dynamodb
 
 	if ferr := fd.forceFailureErr; ferr != nil {
 		// nothing is applied while a failure is emulated: every request is unprocessed, or the call fails
+		// (whatever the batch holds, also when it holds nothing)
+		if err := handleBatchWriteRequestError("", nil, map[string][]*dynamodb.WriteRequest{}, ferr); err != nil {
+			return &dynamodb.BatchWriteItemOutput{}, err
+		}
+
 		unprocessed := map[string][]*dynamodb.WriteRequest{}
 
 		for table, reqs := range input.RequestItems {
